@@ -110,6 +110,51 @@ def run(ctx):
     res.count("instruction_variants", len(allv), floor=40)
     res.count("body_capable_variants", len(body_variants), floor=25)
 
+    # ---- R1b every arm that records something does so on every path through the arm (no early `continue`)
+    def blocks_in(span):
+        out = set()
+        for i, b in enumerate(f.blocks):
+            sps = [st["sp"] for st in b["s"] if "sp" in st] + [b["t"]["sp"]]
+            if any(in_span(sp, span) for sp in sps) and not b.get("cleanup"):
+                out.add(i)
+        return out
+
+    for arm in m["arms"]:
+        vs, _ = k2.arm_variants(arm, INSTRUCTION)
+        kind = None
+        for v in vs:
+            kind = kinds.get(v)
+        if kind not in ("terminator", "body"):
+            continue
+        if kind == "terminator" and not (vs & set(EXPECT)):
+            continue  # the LABEL arm closes a block only when something is pending; the label itself is kept in current_label
+        inside = blocks_in(arm["body_sp"])
+        if kind == "terminator":
+            rec = {bb for bb, t, c in f.calls() if bb in inside and c and callee_path(c).endswith("Vec::<T, A>::push") and "BasicBlock" in f.local_ty((t["args"][1].get("m") or t["args"][1].get("c") or {"l": 0})["l"])["s"]}
+        else:
+            rec = {bb for bb, t, c in f.calls() if bb in inside and c and callee_path(c).endswith("Vec::<T, A>::push")}
+        entries = {b for b in inside if any(p_ not in inside for p_ in f.preds().get(b, []))}
+        ok = bool(rec)
+        for e0 in entries:
+            seen = {e0}
+            stack = [e0]
+            while stack and ok:
+                b = stack.pop()
+                if b in rec:
+                    continue
+                for s_ in f.succs(b):
+                    if s_ not in inside:
+                        if b not in rec:
+                            ok = False
+                        continue
+                    if s_ not in seen:
+                        seen.add(s_)
+                        stack.append(s_)
+        key = "K7|arm-records-on-all-paths|%s" % sorted(vs)[0]
+        res.site(key, True, {"arm": sorted(vs)[:4], "kind": kind, "recording_blocks": sorted(rec), "verdict": "ok" if ok else "VIOLATION"})
+        if not ok:
+            res.find(key, f.loc(arm["sp"]), "the %s arm of the CFG builder (%s...) can be left without recording the instruction (%s): it ends up in no block" % (kind, sorted(vs)[0], "no block is pushed on some path" if kind == "terminator" else "not pushed on some path"), "`JUMP-WHEN @then c; JUMP @else`: the second jump directly follows another terminator and is lost")
+
     # ---- R2 forward table
     nterm = 0
     inner = [x for x in ms if x is not m]
@@ -237,7 +282,22 @@ def run(ctx):
             res.undecided.append(key)
             continue
         inc_e = fn_expr_local(f, inc_l)
-        has_len = any(c[1].endswith("::len") for c in expr_calls(inc_e))
+        # the length must be that of the *closed block's* instruction vector (BasicBlock.instructions), not of the
+        # running accumulator (which std::mem::take has just emptied)
+        has_len = False
+        for l2 in slice_locals(f, inc_l, stop={acc}):
+            for d in f.defs().get(l2, []):
+                if d[0] == "t" and (d[3]["f"].get("k", {}).get("fn", {}) or {}).get("name") == "len" and d[3]["args"]:
+                    pl = d[3]["args"][0].get("m") or d[3]["args"][0].get("c")
+                    names = []
+                    for _ in range(3):
+                        if pl is None:
+                            break
+                        names += [(pr.get("o"), pr["n"]) for pr in pl["pr"] if isinstance(pr, dict) and "n" in pr]
+                        ds = f.defs().get(pl["l"], [])
+                        pl = ds[0][3]["rv"].get("p") if len(ds) == 1 and ds[0][0] == "s" and ds[0][3]["k"] == "assign" and ds[0][3]["rv"]["k"] in ("ref", "copyderef") else None
+                    if any(o and o.endswith("control_flow_graph::BasicBlock") and n == "instructions" for o, n in names):
+                        has_len = True
         dep = label_dep(db, f, inc_e)
         if not dep:
             # a phi among the increment's inputs selected by a label-presence test
